@@ -47,7 +47,9 @@ Dec(r) == (r + RoundMod - 1) % RoundMod
 RECURSIVE SumLen(_, _, _)
 SumLen(iov, i, j) == IF i > j THEN 0 ELSE iov[i].l + SumLen(iov, i + 1, j)
 
-InitB(r0) == [wpos |-> 0, iov |-> [i \in 0..(IovN - 1) |-> [b |-> Null, l |-> 0]], idx |-> 0, imax |-> 0,
+InitB(r0) == [wpos |-> 0,
+              iov |-> [i \in 0..(IovN - 1) |-> [b |-> IF i = 0 /\ "alloc-base" \in Fix THEN 0 ELSE Null, l |-> 0]],
+              idx |-> 0, imax |-> 0,
               rnd |-> r0, frag |-> FALSE, full |-> FALSE]
 
 (***************************************************************************)
@@ -106,10 +108,14 @@ RposInit(B, ds) ==
   IF a.d <= B.iov[a.i].l \/ ~B.full THEN [idx |-> a.i, off |-> 0, rnd |-> B.rnd]
   ELSE LET b == Back(B.iov, B.imax, a.d, B.idx) IN [idx |-> b.i, off |-> 0, rnd |-> Dec(B.rnd)]
 
+(* previous-round reader still valid?  original: by table index only.
+   Fix "stale-check": ... and the writer has not yet passed the memory of the reader's block *)
+PrevOk(B, p) == p.idx > B.idx /\ (("stale-check" \in Fix) => B.iov[p.idx].b >= B.wpos)
+
 (* r_buf_rpos_check_fast *)
 CheckFast(B, rp) ==
   IF rp.rnd = B.rnd THEN (IF rp.idx <= B.idx + 1 THEN 1 ELSE 0)
-  ELSE IF Inc(rp.rnd) = B.rnd THEN (IF rp.idx > B.imax THEN 1 ELSE IF rp.idx > B.idx THEN 1 ELSE 0)
+  ELSE IF Inc(rp.rnd) = B.rnd THEN (IF rp.idx > B.imax THEN 1 ELSE IF PrevOk(B, rp) THEN 1 ELSE 0)
   ELSE 0
 
 (* r_buf_rpos_check: [ok, rp (possibly modified), drop (-1 = *drop_size_ret not written), path (ghost:
@@ -123,9 +129,10 @@ Check(B, rp0) ==
   ELSE IF Inc(p.rnd) = B.rnd THEN
        IF p.idx > B.imax THEN [ok |-> 1, rp |-> [idx |-> 0, off |-> 0, rnd |-> B.rnd], drop |-> -1,
                                path |-> "prev-round-past-end"]
-       ELSE IF p.idx > B.idx THEN [ok |-> 1, rp |-> p, drop |-> -1, path |-> "prev-round"]
+       ELSE IF PrevOk(B, p) THEN [ok |-> 1, rp |-> p, drop |-> -1, path |-> "prev-round"]
        ELSE [ok |-> 0, rp |-> p, drop |-> Size + SumLen(B.iov, p.idx, B.idx), path |-> "prev-round-slow"]
-  ELSE IF Inc(p.rnd) >= B.rnd
+  ELSE IF (IF "round-lag" \in Fix THEN (B.rnd - p.rnd + RoundMod) % RoundMod > RoundMod \div 2
+           ELSE Inc(p.rnd) >= B.rnd)
        THEN [ok |-> 0, rp |-> [idx |-> B.idx + 1, off |-> 0, rnd |-> B.rnd], drop |-> 0,
              path |-> "round-compares-ahead"]
        ELSE [ok |-> 0, rp |-> [idx |-> B.idx + 1, off |-> 0, rnd |-> B.rnd],
@@ -170,7 +177,9 @@ DataGet(B, rp0, dsz, cnt) ==
             [rp |-> p, regs |-> a.regs, drop |-> 0, dsr |-> dsz - a.rem, hop |-> FALSE]
   ELSE LET n1 == 1 + B.imax - p.idx
            a1 == Agg(B.iov, p.idx, n1, dsz, p.off, cnt)
-           a2 == Agg(B.iov, 0, 1 + B.idx, a1.rem, 0, cnt - Len(a1.regs))
+           whole == dsz - a1.rem = SumLen(B.iov, p.idx, B.imax) - p.off
+           a2 == IF "gather" \in Fix /\ ~whole THEN [regs |-> << >>, rem |-> a1.rem, used |-> 0]
+                 ELSE Agg(B.iov, 0, 1 + B.idx, a1.rem, 0, cnt - Len(a1.regs))
        IN [rp |-> p, regs |-> a1.regs \o a2.regs, drop |-> 0, dsr |-> dsz - a2.rem,
            \* ghost: the second call produced regions although the first stopped before its last entry
            hop |-> a1.used < n1 /\ a2.regs # << >>]
@@ -365,7 +374,7 @@ DoDataGet(r, dsz, cnt) ==
            ELSE IF bad # {}       \* forgive: restart the bookkeeping so one defect is reported once
                 THEN /\ next' = [next EXCEPT ![r] = Pending]
                      /\ low' = [low EXCEPT ![r] = 0]
-                     /\ lastret' = [lastret EXCEPT ![r] = 0]
+                     /\ lastret' = [lastret EXCEPT ![r] = IF inring THEN n ELSE 0]
            ELSE /\ next' = [next EXCEPT ![r] = D[1]]
                 /\ low' = [low EXCEPT ![r] = D[1]]
                 /\ lastret' = [lastret EXCEPT ![r] = n]
